@@ -1,4 +1,320 @@
-(* placeholder until Proofs/ModifP.v lands *)
-From BEI Require Import Model.Modif.
-Theorem C18_placeholder : forall k v, vdim (swizzle_apply k v) <> DBool.
-Proof. intros k v; destruct k, v; simpl; discriminate. Qed.
+(* C18 - The built-in modifiers compute what their documentation says.
+   Negate flips the sign of exactly the selected axes (twice is the identity); Scale multiplies per
+   axis; SwizzleAxis outputs the stated axis permutation of the zero-padded input truncated to the
+   output dimension, losing nothing for bool, 1D and 3D inputs; DeadZone yields zero inside the lower
+   threshold, magnitude at most one, preserved sign/direction, and is monotone in between;
+   ExponentialCurve preserves sign with fixed points 0 and +-1; DeltaScale multiplies by the frame
+   delta.  All of them map zero to zero and change the dimension only as documented (bool becomes
+   1D; swizzle promotion).  DeltaLerp's output always lies between its previous output and the
+   current input and reaches the input once close; AccumulateBy returns the running sum while the
+   referenced action is Fired and the plain input otherwise.
+
+   Vocabulary: [numeric v] is v with a bool turned into the 1D value 0/1; [as3] pads with zeros to
+   3D; [convert d] truncates to dimension d; so "axis k of the output is f_k of axis k of the input,
+   in the input's dimension" reads  out = convert (vdim (numeric v)) (V3 (f1 x) (f2 y) (f3 z))
+   where (x, y, z) = as3 (numeric v).  [perm], [dzm], [v3eq], [v3plus], [v3sum], [accumulate_run]
+   are defined in Proofs/ModifP.v. *)
+From BEI Require Import Model.Modif Proofs.ValueP Proofs.CondP Proofs.ModifP.
+
+(* ---- bool becomes 1D, nothing else changes ---- *)
+Theorem C18_numeric_dim : forall v, vdim (numeric v) = match vdim v with DBool => D1 | d => d end.
+Proof. exact numeric_dim. Qed.
+
+(* ---- Negate ---- *)
+Theorem C18_negate_axes : forall fx fy fz v x y z,
+  as3 (numeric v) = (x, y, z) ->
+  negate_apply fx fy fz v =
+  convert (vdim (numeric v))
+    (V3 (if fx then - x else x) (if fy then - y else y) (if fz then - z else z)).
+Proof. exact negate_spec. Qed.
+Theorem C18_negate_dim : forall fx fy fz v, vdim (negate_apply fx fy fz v) = vdim (numeric v).
+Proof. exact negate_dim. Qed.
+Theorem C18_negate_involutive : forall fx fy fz v,
+  veq (negate_apply fx fy fz (negate_apply fx fy fz v)) (numeric v).
+Proof. exact negate_involutive. Qed.
+Theorem C18_negate_none : forall v, negate_apply false false false v = numeric v.
+Proof. exact negate_none. Qed.
+
+(* ---- Scale ---- *)
+Theorem C18_scale_axes : forall fx fy fz v x y z,
+  as3 (numeric v) = (x, y, z) ->
+  scale_apply fx fy fz v = convert (vdim (numeric v)) (V3 (x * fx) (y * fy) (z * fz)).
+Proof. exact scale_spec. Qed.
+Theorem C18_scale_dim : forall fx fy fz v, vdim (scale_apply fx fy fz v) = vdim (numeric v).
+Proof. exact scale_dim. Qed.
+
+(* ---- SwizzleAxis ---- *)
+Theorem C18_perm_table : forall x y z,
+  perm YXZ (x, y, z) = (y, x, z) /\ perm ZYX (x, y, z) = (z, y, x) /\ perm XZY (x, y, z) = (x, z, y) /\
+  perm YZX (x, y, z) = (y, z, x) /\ perm ZXY (x, y, z) = (z, x, y).
+Proof. exact perm_table. Qed.
+Theorem C18_perm_bijective : forall k a,
+  perm (swz_inv k) (perm k a) = a /\ perm k (perm (swz_inv k) a) = a.
+Proof. exact perm_inv. Qed.
+(* the output is the permutation of the zero-padded input, truncated to the output dimension *)
+Theorem C18_swizzle_permutes : forall k v,
+  convert (vdim (swizzle_apply k v)) (of3 (perm k (as3 (numeric v)))) = swizzle_apply k v.
+Proof. exact swizzle_spec. Qed.
+Theorem C18_swizzle_dim : forall k v,
+  vdim (swizzle_apply k v) =
+  match vdim v with
+  | D3 => D3
+  | D2 => D2
+  | DBool | D1 => match k with YXZ | ZXY => D2 | ZYX | YZX => D3 | XZY => D1 end
+  end.
+Proof. exact swizzle_out_dim. Qed.
+(* bool, 1D and 3D inputs lose nothing *)
+Theorem C18_swizzle_lossless : forall k v,
+  vdim (numeric v) = D1 \/ vdim (numeric v) = D3 ->
+  as3 (swizzle_apply k v) = perm k (as3 (numeric v)).
+Proof. exact swizzle_lossless. Qed.
+Theorem C18_swizzle_3d : forall k x y z, swizzle_apply k (V3 x y z) = of3 (perm k (x, y, z)).
+Proof. exact swizzle_3d. Qed.
+(* ... whereas a 2D input stays 2D, so the zero third axis can displace a real one *)
+Theorem C18_swizzle_2d_lossy :
+  swizzle_apply ZYX (V2 1 2) = V2 0 2 /\ swizzle_apply XZY (V2 1 2) = V2 1 0.
+Proof. exact swizzle_2d_lossy. Qed.
+
+(* ---- DeadZone: the scalar response ---- *)
+Theorem C18_dz_inside : forall lo hi x, qabs x <= lo -> dz lo hi x == 0.
+Proof. exact dz_inside. Qed.
+Theorem C18_dz_bounded : forall lo hi x, lo < hi -> qabs (dz lo hi x) <= 1.
+Proof. exact dz_bounded. Qed.
+Theorem C18_dz_sign : forall lo hi x, lo < hi -> 0 <= dz lo hi x * x.
+Proof. exact dz_sign. Qed.
+Theorem C18_dz_monotone : forall lo hi x1 x2,
+  lo < hi -> qabs x1 <= qabs x2 -> qabs (dz lo hi x1) <= qabs (dz lo hi x2).
+Proof. exact dz_mono. Qed.
+(* linear between the thresholds, +-1 from the upper threshold on *)
+Theorem C18_dz_between : forall lo hi x,
+  lo < hi -> lo <= qabs x -> qabs x <= hi -> dz lo hi x == (qabs x - lo) / (hi - lo) * signum x.
+Proof. exact dz_between. Qed.
+Theorem C18_dz_saturated : forall lo hi x, lo < hi -> hi <= qabs x -> dz lo hi x == signum x.
+Proof. exact dz_saturated. Qed.
+
+(* ---- DeadZone: Axial applies the response per axis ---- *)
+Theorem C18_deadzone_axial : forall lo hi v x y z,
+  as3 (numeric v) = (x, y, z) ->
+  deadzone_apply Axial lo hi v = convert (vdim (numeric v)) (V3 (dz lo hi x) (dz lo hi y) (dz lo hi z)).
+Proof. exact deadzone_axial_spec. Qed.
+
+(* ---- DeadZone: Radial applies [radial] to 2D/3D inputs, the scalar response to bool/1D ---- *)
+Theorem C18_deadzone_radial : forall lo hi v,
+  deadzone_apply Radial lo hi v =
+  match vdim (numeric v) with
+  | D2 | D3 => convert (vdim (numeric v)) (of3 (radial lo hi (as3 (numeric v))))
+  | _ => V1 (dz lo hi (as1 (numeric v)))
+  end.
+Proof. exact deadzone_radial_spec. Qed.
+(* direction preserved: the result is the input times a non-negative factor *)
+Theorem C18_radial_direction : forall lo hi x y z len,
+  len = qsqrt (v3len2 (x, y, z)) -> lo < hi -> 0 <= len ->
+  let c := dz lo hi len / len in
+  0 <= c /\
+  let '(rx, ry, rz) := radial lo hi (x, y, z) in rx == c * x /\ ry == c * y /\ rz == c * z.
+Proof. exact radial_direction. Qed.
+(* with an exact square root the output length is the scalar response to the input length ... *)
+Theorem C18_radial_length : forall lo hi x y z len,
+  len = qsqrt (v3len2 (x, y, z)) -> 0 <= lo -> lo < hi -> 0 <= len -> len * len == v3len2 (x, y, z) ->
+  v3len2 (radial lo hi (x, y, z)) == dz lo hi len * dz lo hi len.
+Proof. exact radial_length. Qed.
+(* ... hence at most one ... *)
+Theorem C18_radial_bounded : forall lo hi x y z len,
+  len = qsqrt (v3len2 (x, y, z)) -> 0 <= lo -> lo < hi -> 0 <= len -> len * len == v3len2 (x, y, z) ->
+  v3len2 (radial lo hi (x, y, z)) <= 1.
+Proof. exact radial_bounded. Qed.
+(* ... and zero inside the lower threshold *)
+Theorem C18_radial_inside : forall lo hi x y z len,
+  len = qsqrt (v3len2 (x, y, z)) -> 0 <= len -> len <= lo ->
+  let '(rx, ry, rz) := radial lo hi (x, y, z) in rx == 0 /\ ry == 0 /\ rz == 0.
+Proof. exact radial_inside. Qed.
+Theorem C18_deadzone_dim : forall kind lo hi v, vdim (deadzone_apply kind lo hi v) = vdim (numeric v).
+Proof. exact deadzone_dim. Qed.
+
+(* ---- ExponentialCurve ---- *)
+Theorem C18_exp_sign : forall x e, 0 <= apply_exp x e * x.
+Proof. exact exp_sign. Qed.
+Theorem C18_exp_magnitude : forall x e, qabs (apply_exp x e) == Qpower_positive (qabs x) e.
+Proof. exact exp_abs. Qed.
+Theorem C18_exp_fixed_points : forall e,
+  apply_exp 0 e == 0 /\ apply_exp 1 e == 1 /\ apply_exp (-1) e == -1.
+Proof. exact exp_fixed. Qed.
+Theorem C18_exp_linear : forall x, apply_exp x 1 == x.
+Proof. exact exp_linear. Qed.
+Theorem C18_exp_axes : forall ex ey ez v x y z,
+  as3 (numeric v) = (x, y, z) ->
+  exp_apply ex ey ez v =
+  convert (vdim (numeric v)) (V3 (apply_exp x ex) (apply_exp y ey) (apply_exp z ez)).
+Proof. exact exp_spec. Qed.
+Theorem C18_exp_dim : forall ex ey ez v, vdim (exp_apply ex ey ez v) = vdim (numeric v).
+Proof. exact exp_dim. Qed.
+
+(* ---- DeltaScale ---- *)
+Theorem C18_delta_scale_axes : forall dt v x y z,
+  as3 (numeric v) = (x, y, z) ->
+  delta_scale_apply dt v = convert (vdim (numeric v)) (V3 (x * dt) (y * dt) (z * dt)).
+Proof. exact delta_scale_spec. Qed.
+Theorem C18_delta_scale_dim : forall dt v, vdim (delta_scale_apply dt v) = vdim (numeric v).
+Proof. exact delta_scale_dim. Qed.
+
+(* ---- zero goes to zero ---- *)
+Theorem C18_negate_zero : forall fx fy fz v,
+  as_bool v = false -> as_bool (negate_apply fx fy fz v) = false.
+Proof. exact negate_zero. Qed.
+Theorem C18_scale_zero : forall fx fy fz v,
+  as_bool v = false -> as_bool (scale_apply fx fy fz v) = false.
+Proof. exact scale_zero. Qed.
+Theorem C18_swizzle_zero : forall k v, as_bool v = false -> as_bool (swizzle_apply k v) = false.
+Proof. exact swizzle_zero. Qed.
+Theorem C18_deadzone_zero : forall kind lo hi v,
+  0 <= lo -> as_bool v = false -> as_bool (deadzone_apply kind lo hi v) = false.
+Proof. exact deadzone_zero. Qed.
+Theorem C18_exp_zero : forall ex ey ez v,
+  as_bool v = false -> as_bool (exp_apply ex ey ez v) = false.
+Proof. exact exp_zero. Qed.
+Theorem C18_delta_scale_zero : forall dt v,
+  as_bool v = false -> as_bool (delta_scale_apply dt v) = false.
+Proof. exact delta_scale_zero. Qed.
+
+(* ---- the same two facts through the modifier dispatcher ---- *)
+Theorem C18_modif_zero : forall look tm v m,
+  match m with
+  | MNegate _ _ _ | MScale _ _ _ | MSwizzle _ | MExp _ _ _ | MDeltaScale => True
+  | MDeadZone _ lo _ => 0 <= lo
+  | MDeltaLerp _ _ | MAccumulate _ _ | MScript _ => False
+  end ->
+  as_bool v = false -> as_bool (snd (modif_apply look tm v m)) = false.
+Proof. exact modif_zero. Qed.
+Theorem C18_modif_dim : forall look tm v m,
+  match m with
+  | MNegate _ _ _ | MScale _ _ _ | MDeadZone _ _ _ | MExp _ _ _ | MDeltaScale => True
+  | _ => False
+  end ->
+  vdim (snd (modif_apply look tm v m)) = match vdim v with DBool => D1 | d => d end.
+Proof. exact modif_dim. Qed.
+
+(* ---- DeltaLerp ---- *)
+Theorem C18_delta_lerp_between : forall spd prev dt v,
+  0 <= dt * spd ->
+  let '(px, py, pz) := prev in
+  let '(tx, ty, tz) := as3 (numeric v) in
+  let '(qx, qy, qz) := fst (delta_lerp_apply spd prev dt v) in
+  (qmin px tx <= qx /\ qx <= qmax px tx) /\
+  (qmin py ty <= qy /\ qy <= qmax py ty) /\
+  (qmin pz tz <= qz /\ qz <= qmax pz tz).
+Proof. exact delta_lerp_between. Qed.
+(* the emitted value is always the remembered vector in the input's dimension *)
+Theorem C18_delta_lerp_output : forall spd prev dt v,
+  snd (delta_lerp_apply spd prev dt v) =
+  convert (vdim (numeric v)) (of3 (fst (delta_lerp_apply spd prev dt v))).
+Proof. exact delta_lerp_out. Qed.
+Theorem C18_delta_lerp_snap : forall spd prev dt v,
+  v3dist2 prev (as3 (numeric v)) < snap_threshold ->
+  delta_lerp_apply spd prev dt v = (as3 (numeric v), numeric v).
+Proof. exact delta_lerp_snap. Qed.
+Theorem C18_delta_lerp_step : forall spd px py pz dt v tx ty tz,
+  as3 (numeric v) = (tx, ty, tz) ->
+  snap_threshold <= v3dist2 (px, py, pz) (tx, ty, tz) ->
+  fst (delta_lerp_apply spd (px, py, pz) dt v) =
+  (lerp1 px tx (qmin (dt * spd) 1), lerp1 py ty (qmin (dt * spd) 1), lerp1 pz tz (qmin (dt * spd) 1)).
+Proof. exact delta_lerp_far. Qed.
+Theorem C18_delta_lerp_reach : forall spd prev dt v,
+  1 <= dt * spd ->
+  let '(tx, ty, tz) := as3 (numeric v) in
+  let '(qx, qy, qz) := fst (delta_lerp_apply spd prev dt v) in
+  qx == tx /\ qy == ty /\ qz == tz.
+Proof. exact delta_lerp_reach. Qed.
+
+(* ---- AccumulateBy ---- *)
+Theorem C18_accumulate_absent : forall look a acc v,
+  look a = None -> accumulate_apply look a acc v = (acc, v).
+Proof. exact accumulate_absent. Qed.
+Theorem C18_accumulate_idle : forall look a acc v s,
+  look a = Some s -> s <> SFired -> accumulate_apply look a acc v = (as3 v, v).
+Proof. exact accumulate_idle. Qed.
+Theorem C18_accumulate_fired : forall look a ax ay az v x y z,
+  look a = Some SFired -> as3 v = (x, y, z) ->
+  exists sx sy sz,
+    accumulate_apply look a (ax, ay, az) v = ((sx, sy, sz), convert (vdim v) (V3 sx sy sz)) /\
+    sx == ax + x /\ sy == ay + y /\ sz == az + z.
+Proof. exact accumulate_fired. Qed.
+Theorem C18_accumulate_running_sum : forall look a vs acc,
+  look a = Some SFired ->
+  v3eq (accumulate_run look a acc vs) (v3plus acc (v3sum (map as3 vs))).
+Proof. exact accumulate_running_sum. Qed.
+
+(* the hypotheses above are satisfiable, on inputs where the modifiers do something *)
+Example C18_nonvacuous :
+  let lo := 1 # 5 in let hi := 1 in
+  let len := qsqrt (v3len2 (3 # 10, 4 # 10, 0)) in
+  (0 <= lo /\ lo < hi) /\
+  (len = 1 # 2 /\ 0 <= len /\ len * len == v3len2 (3 # 10, 4 # 10, 0) /\ ~ len <= lo) /\
+  veq (deadzone_apply Radial lo hi (V2 (3 # 10) (4 # 10))) (V2 (9 # 40) (3 # 10)) /\
+  veq (deadzone_apply Axial lo hi (V2 (3 # 10) (-1 # 10))) (V2 (1 # 8) 0) /\
+  negate_apply true false true (V3 1 2 3) = V3 (-1) 2 (-3) /\
+  swizzle_apply YXZ (VB true) = V2 0 1 /\
+  veq (exp_apply 2 3 1 (V2 (-1 # 2) (-1 # 2))) (V2 (-1 # 4) (-1 # 8)) /\
+  (0 <= (1 # 8) * 4 /\ snap_threshold <= v3dist2 v3zero (as3 (numeric (VB true))) /\
+   delta_lerp_apply 4 v3zero (1 # 8) (VB true) = ((1 # 2, 0, 0), V1 (1 # 2))) /\
+  (let look := fun _ : aid => Some SFired in
+   look 7%Z = Some SFired /\ accumulate_apply look 7%Z (1, 0, 0) (V1 2) = ((3, 0, 0), V1 3)).
+Proof.
+  cbv zeta.
+  repeat match goal with |- _ /\ _ => split end;
+    try (apply veqb_veq; vm_compute; reflexivity);
+    try (vm_compute; first [reflexivity | discriminate | (intro; discriminate)]);
+    try (intros Hc; vm_compute in Hc; apply Hc; reflexivity).
+Qed.
+
+Print Assumptions C18_numeric_dim.
+Print Assumptions C18_negate_axes.
+Print Assumptions C18_negate_dim.
+Print Assumptions C18_negate_involutive.
+Print Assumptions C18_negate_none.
+Print Assumptions C18_scale_axes.
+Print Assumptions C18_scale_dim.
+Print Assumptions C18_perm_table.
+Print Assumptions C18_perm_bijective.
+Print Assumptions C18_swizzle_permutes.
+Print Assumptions C18_swizzle_dim.
+Print Assumptions C18_swizzle_lossless.
+Print Assumptions C18_swizzle_3d.
+Print Assumptions C18_swizzle_2d_lossy.
+Print Assumptions C18_dz_inside.
+Print Assumptions C18_dz_bounded.
+Print Assumptions C18_dz_sign.
+Print Assumptions C18_dz_monotone.
+Print Assumptions C18_dz_between.
+Print Assumptions C18_dz_saturated.
+Print Assumptions C18_deadzone_axial.
+Print Assumptions C18_deadzone_radial.
+Print Assumptions C18_radial_direction.
+Print Assumptions C18_radial_length.
+Print Assumptions C18_radial_bounded.
+Print Assumptions C18_radial_inside.
+Print Assumptions C18_deadzone_dim.
+Print Assumptions C18_exp_sign.
+Print Assumptions C18_exp_magnitude.
+Print Assumptions C18_exp_fixed_points.
+Print Assumptions C18_exp_linear.
+Print Assumptions C18_exp_axes.
+Print Assumptions C18_exp_dim.
+Print Assumptions C18_delta_scale_axes.
+Print Assumptions C18_delta_scale_dim.
+Print Assumptions C18_negate_zero.
+Print Assumptions C18_scale_zero.
+Print Assumptions C18_swizzle_zero.
+Print Assumptions C18_deadzone_zero.
+Print Assumptions C18_exp_zero.
+Print Assumptions C18_delta_scale_zero.
+Print Assumptions C18_modif_zero.
+Print Assumptions C18_modif_dim.
+Print Assumptions C18_delta_lerp_between.
+Print Assumptions C18_delta_lerp_output.
+Print Assumptions C18_delta_lerp_snap.
+Print Assumptions C18_delta_lerp_step.
+Print Assumptions C18_delta_lerp_reach.
+Print Assumptions C18_accumulate_absent.
+Print Assumptions C18_accumulate_idle.
+Print Assumptions C18_accumulate_fired.
+Print Assumptions C18_accumulate_running_sum.
